@@ -9,7 +9,7 @@ package m3
 // report counters, gauges, timers and histogram buckets and call Flush as fast as they can;
 // after a few milliseconds Close is called from 3 goroutines at once while the reporting
 // continues for a little longer.  Oracle: nothing panics (a panic kills the test binary and
-// is reported by the harness), every Close call returns within 10 s, exactly one of the
+// is reported by the harness), every Close call returns within 30 s, exactly one of the
 // concurrent Close calls returns nil and later ones return an error, calls made after Close
 // return normally, and when everything has stopped the number of goroutines is back to
 // what it was before the reporter was created (none of the reporter's goroutines is left).
@@ -108,8 +108,8 @@ func TestVerifDriverC14(t *testing.T) {
 		go func() { cwg.Wait(); close(closed) }()
 		select {
 		case <-closed:
-		case <-time.After(10 * time.Second):
-			fail("round %d: Close did not return within 10 s while reports continued", round)
+		case <-time.After(30 * time.Second):
+			fail("round %d: Close did not return within 30 s while reports continued", round)
 		}
 		time.Sleep(2 * time.Millisecond)
 		atomic.StoreInt32(&stop, 1)
@@ -125,12 +125,12 @@ func TestVerifDriverC14(t *testing.T) {
 		rep.AllocateHistogram("after", tags, tally.DurationBuckets{time.Second}).DurationBucket(0, time.Second).ReportSamples(1)
 		rep.Flush()
 		// none of the reporter's goroutines is left
-		deadline := time.Now().Add(3 * time.Second)
+		deadline := time.Now().Add(15 * time.Second)
 		for runtime.NumGoroutine() > base && time.Now().Before(deadline) {
 			time.Sleep(5 * time.Millisecond)
 		}
 		if n := runtime.NumGoroutine(); n > base {
-			fail("round %d: %d goroutines before the reporter was created, %d still running 3 s after Close returned", round, base, n)
+			fail("round %d: %d goroutines before the reporter was created, %d still running 15 s after Close returned", round, base, n)
 		}
 	}
 	if fails > 0 {
